@@ -10,6 +10,7 @@ ASYNC_NOTE = ("Trusted: TLC 1.8, harness/drivers/asynchb.py (reads bracket, mile
               "from the scheduler's attributes). Metric values are integer-valued floats; exact ties accept both outcomes. "
               "Bounds: <= 4 trials, <= 3 concurrently running, <= 3 rung levels in exhaustive runs.")
 CLAIMED = {
+ "C05": ("SyncHB.tla: TLC explores every order in which the pending jobs of the open brackets return and every subset (<= 2) of failing jobs for geometric and custom rung systems, both modes (RungFilledByDistinctTrials, ResumeOnlyAfterRungComplete, PromotedAreTopK with failures last, NextJobNeverBlocks incl. ENABLED-suggest, BracketsCycleOffsets, RungAccounting); TLC schedules are replayed into real SynchronousHyperbandScheduler objects and every job (bracket, rung, slot, level, trial, resume-vs-start, max_resource_attr), decision and removable list is validated by TLC against SyncHB_Trace.", "5.4, 6 C05", "Trusted: TLC 1.8, harness/drivers/synchb.py (reads the pending slot of a suggested trial from the scheduler). Integer-valued metrics, ties either way. DEHB slot system not driven in this revision.", "SyncHB"),
  "C01": ("TunerLoop.tla: TLC exhausts every interleaving of worker emit/exit/fail/external-stop with the critical sections of Tuner.run for small constants under WorkerBudget, IdsInSequence, LifeCycle, ResumeOnlyPaused, CallbackProtocol; TLC-generated behaviours (random walks + BFS transition cover) are compiled to environment scripts and executed by the REAL Tuner.run on a scripted poll-type backend; every recorded run is validated by TLC against TunerLoop_Trace (same event operators, same invariants).", "5.1, 6 C01", TUNER_NOTE, "TunerLoop"),
  "C02": ("Same machinery as C01 with the delivery monitor: per run the delivered results must be the gap-free prefix of the reports stamped (run, index) by the scripted worker (DeliveredIsPrefix, NothingAfterDecision, ResumeStartsNewRun, CompleteMeansAll); poll batches, kills and resumes are placed by TLC.", "5.1, 6 C02", TUNER_NOTE, "TunerLoop"),
  "C03": ("Quantile_MC: the code's quantile algorithm equals the numpy definition for all small lists (TLC ASSUMEs, rows replayed into the real Rung.quantile). AsyncHB_MC: every report order of concurrently running trials, every metric table over 3-4 values, both modes, 1-2 brackets shared / per bracket, RUSH thresholds, under EnterRungOnce, DecideOnlyAtOwnRungs, StopAtMax, ContinueIffQuantile; TLC schedules replayed into real HyperbandScheduler objects, decisions and rung sizes validated by TLC against AsyncHB_Trace.", "5.3, 6 C03", ASYNC_NOTE, "AsyncHB"),
